@@ -1,15 +1,13 @@
 /-
 C18, round 3: the style a consumer holds when it follows the renderer on a terminal with given capabilities
 (`capStyle`: direct colours replaced by their palette fallback without `rgb`; no underline colour and only
-off / single underline without `styledUnderlines`), composed with C07 (`asIndex_id`, `asIndex_nearest`):
-it is well formed and shows what `shownCaps` says.  Used by the nine `delta_<producer>_<consumer>` theorems.
+off / single underline without `styledUnderlines`), it is well formed (by the shape of `Color.asIndex`, C07's model) and shows what `shownCaps` says.  Used by the nine `delta_<producer>_<consumer>` theorems.
 -/
 import VaxisModel.Lemmas.Sgr
-import VaxisModel.Props.C07
 
 namespace VaxisModel.Lemmas.SgrDelta
 open VaxisModel VaxisModel.Gen VaxisModel.Model.Sgr VaxisModel.Spec VaxisModel.Lemmas.Sgr
-open VaxisModel.Model.Color (Color indexColor rgbColor asIndex isRGB)
+open VaxisModel.Model.Color (Color indexColor rgbColor asIndex asIndexWith isRGB)
 
 /-- The style whose `shown` is `shownCaps rgb su s`: what the renderer's sequences make of `s` on such a terminal. -/
 def capStyle (rgb su : Bool) (s : Style) : Style :=
@@ -25,15 +23,16 @@ theorem capStyle_full (s : Style) : capStyle true true s = s := by
 theorem shown_capStyle (rgb su : Bool) (s : Style) : shown (capStyle rgb su s) = shownCaps rgb su s := by
   cases rgb <;> cases su <;> simp [shown, shownCaps, capStyle, col_zero]
 
-/-- The palette fallback of a constructor-built colour is constructor-built (C07: unchanged unless direct, else
-    `IndexColor(16 + i)`, `i < 240`). -/
+/-- The palette fallback of a constructor-built colour is constructor-built, whatever the palette and the weights: by the
+    shape of `asIndex` alone (unchanged unless direct; else `IndexColor(uint8(i + 16))` for the selected entry; C07 proves
+    which entry). -/
 theorem asIndex_wf (c : Color) (h : Color.wf c) : Color.wf (asIndex c) := by
-  cases hr : isRGB c with
-  | false => rw [Props.C07.asIndex_id c hr]; exact h
-  | true =>
-    obtain ⟨i, hi, he, _⟩ := Props.C07.asIndex_nearest c hr
-    rw [he]
-    exact Or.inr (Or.inl ⟨16 + i, by omega, rfl⟩)
+  unfold asIndex asIndexWith
+  split
+  · exact h
+  · split
+    · exact Or.inl rfl
+    · exact Or.inr (Or.inl ⟨_, Nat.mod_lt _ (by decide), rfl⟩)
 
 theorem capStyle_wf (rgb su : Bool) (s : Style) (h : s.wf) : (capStyle rgb su s).wf := by
   refine ⟨?_, ?_, ?_, ?_, h.attr⟩
